@@ -780,3 +780,85 @@ def c06(ctx):
     ctx.exhaustive = False
     ctx.assumptions += ["UBSan nonnull-attribute (and clang pointer-overflow for NULL+0) are disabled: memcpy/explicit_bzero(NULL, .., 0) on permitted NULL/0 arguments touches no byte and is outside the property",
                         "red-zone tools cannot see intra-object overflows inside the library's private structs", "lengths >= 2^32 are not run"]
+
+
+# ---------------------------------------------------------------------------------- C07
+
+def memcheck_blocks(err):
+    """All memcheck taint errors with the SHAPE announced before them: list of (kind, libfn or None, shape, text)."""
+    import re
+    out = []
+    shape = None
+    lines = err.splitlines()
+    i = 0
+    pat = re.compile(r"==\d+== (Conditional jump or move depends on uninitialised value|Use of uninitialised value of size \d+|Syscall param [^\n]*uninitialised[^\n]*)")
+    while i < len(lines):
+        l = lines[i]
+        ms = re.match(r"\*\*\d+\*\* SHAPE (.*)", l)
+        if ms:
+            shape = ms.group(1)
+        m = pat.match(l)
+        if m:
+            blk = [l]
+            i += 1
+            while i < len(lines) and re.match(r"==\d+==\s+(at|by) ", lines[i]):
+                blk.append(lines[i]); i += 1
+            text = "\n".join(blk)
+            fn = re.search(r"(?:at|by) 0x[0-9A-F]+: (tinyjambu_\w+)", text)
+            kind = "branch" if m.group(1).startswith("Conditional") else "address" if m.group(1).startswith("Use") else "syscall-param"
+            out.append((kind, fn.group(1) if fn else None, shape, text))
+            continue
+        i += 1
+    return out
+
+
+@check("C07", "exploration", floor=300)
+def c07(ctx):
+    load_replay(ctx)
+    p = ctx.prod()
+    cfgs = [("prod-cmake-Release(gcc -O3)", {"static": p["static"]}, "gcc")]
+    cfgs.append(("gcc-O2", ctx.lib("ct-gcc-O2", "gcc", ["-O2", "-g"]), "gcc"))
+    if ctx.thorough or True:
+        cfgs.append(("clang-O2", ctx.lib("ct-clang-O2", "clang", ["-O2", "-g", "-gdwarf-4"]), "clang"))
+        cfgs.append(("clang-O3", ctx.lib("ct-clang-O3", "clang", ["-O3", "-g", "-gdwarf-4"]), "clang"))
+    jobs, ctl = [], []
+    vg = ["valgrind", "--error-exitcode=0", "--expensive-definedness-checks=yes", "--error-limit=no", "--num-callers=12", "-q"]
+    for tag, lib, cc in cfgs:
+        exe = ctx.harness("h_ct-" + tag.split("(")[0], "h_ct.c", lib, cc="gcc", flags=["-gdwarf-4"], with_model=False)
+        for j in batch_jobs(ctx, exe, tag, ["--mode", "shapes"], ctx.q(4, 4)):
+            j["cmd"] = vg + j["cmd"]
+            jobs.append(j)
+        if not ctx.replay:
+            ctl.append({"cmd": vg + [exe, "--mode", "control"], "tag": tag + "/control"})
+    res = ctx.run_jobs(jobs, timeout=3000)
+    for job, rc, out, err, dt in res:
+        if rc is None:
+            continue
+        for kind, fn, shape, text in memcheck_blocks(err):
+            if fn:
+                ctx.violation("secret-dependent-%s:%s" % (kind, fn), {"build": job["tag"], "cmd": job["cmd"], "detail": {"case": core._j(shape) if shape else None}, "report": text})
+            else:
+                ctx.inconclusive.append("memcheck error without a library frame (harness defect?) in %s: %s" % (job["tag"], text[:400]))
+        ctx.count("valgrind_processes", 1)
+    # positive control: the monitor must be able to see a secret-dependent branch in every configuration
+    if ctl:
+        res = ctx.run_jobs(ctl, timeout=600, parse=False)
+        seen = 0
+        for job, rc, out, err, dt in res:
+            blocks = memcheck_blocks(err or "")
+            if any("leaky_compare" in b[3] for b in blocks):
+                seen += 1
+        ctx.count("positive_controls_flagged", seen)
+        if seen != len(ctl):
+            ctx.inconclusive.append("positive control (early-exit compare of a secret buffer) was flagged in %d of %d configurations" % (seen, len(ctl)))
+    ctx.rule = ("public shapes: 12 AEAD/SIV entry points x adlen,mlen in {0,1,2,3,4,5,8,17} x verdict {accept, reject with the wrong tag byte at each index 0..7, "
+                "reject via body}; check_tag directly for every differing byte index; hash lengths "
+                "{0,1,15,16,17,31,32,33,100} x chunkings {one-shot,1,5,11,16}; HMAC key lengths {0,1,31,32,63,64,65,100} one-shot/streamed; HKDF outlen {1,32,33,100,8160} "
+                "one-shot/incremental; PBKDF2 counts {0,1,2,3,10} x outlen {1,32,33,70}; PRNG init with full/short/zero delivery, generate {1,32,33,100,1100 (automatic "
+                "reseed)}, feed, reseed, set-limit. Secrets (keys, plaintexts, passwords, IKM, entropy bytes as delivered in the callback, fed data) are marked undefined; "
+                "memcheck (--expensive-definedness-checks) reports any branch / address / syscall parameter depending on them; a report with a library frame is a "
+                "violation. Configurations: the cmake Release objects (gcc -O3), gcc -O2, clang -O2, clang -O3. Positive control per configuration. class = shape.")
+    ctx.exhaustive = False
+    ctx.assumptions += ["valgrind's definedness propagation is trusted as taint tracking (under-taints through some vector idioms are possible)",
+                        "instruction-latency channels are invisible; only control flow and addresses are decided, as the property is worded",
+                        "assembly backends are not executed on this host (their control flow is observed in C05's interpreters)"]
